@@ -9,6 +9,49 @@ COMMON_NOTE = ("Trusted: Coq 8.16.1 kernel; extraction with ExtrOcamlBasic only 
                "the radix-tree library, flock(2), goroutine scheduling. See DESIGN.md section 5.")
 
 CHECKS = {
+ 'C07': dict(text="Proof (Coq), for every checksum function with 32-bit values and every byte string: the transcribed readV1/readV2 "
+                  "accept only byte-for-byte valid records (decoder soundness for both versions), so the scan shared by Recover and Check "
+                  "returns a back-to-back run of valid records and stops at the first position that holds none; Recover (recover_bytes) on "
+                  "ANY file - truncated at any byte, zero-filled, bit-flipped, garbage after any number of records - returns the encoding of "
+                  "messages that is a prefix of the old file and is followed by no valid record (precisely the longest valid prefix), with an "
+                  "index that is absent, the untouched old one if it reads as the derived items, or the encoding of the derived items; it is "
+                  "a byte-for-byte no-op on an undamaged segment; Check succeeds iff the log is the encoding of messages and the index, if "
+                  "present, reads as the derived index; after Recover Check succeeds, a second Recover is the identity, and Check keeps "
+                  "succeeding after appends; index files round-trip (both versions, four layouts); a record cut anywhere inside is "
+                  "classified as corruption. The known finding F14 (a 1..7 byte head file is refused) is a theorem of the model too. Tied "
+                  "to /repo by running segment.Check / segment.Recover on generated head segments (0-6 records, both versions, all index "
+                  "states) with every truncation, bit flips, zero fills and garbage tails: resulting files compared byte for byte with the "
+                  "model and judged by an independent encoder-based reference parser (RecoverSpec.v); re-check and append after recover.",
+             ref='6/C07', technique='Coq proof (decoder soundness, longest-valid-prefix, Check iff, idempotence) + byte-level differential sweep'),
+ 'C05': dict(text="Partial. Proved (Coq) at the level of one segment's files, for every checksum function: a crash part-way through the "
+                  "append of a record (any proper prefix of it on disk) after any number of complete records, whatever the index file "
+                  "holds, is recovered to exactly the complete records (published messages, possibly followed by a prefix of the batch); a "
+                  "crash between appends leaves the log file unchanged; whatever Recover returns consists only of valid records of the "
+                  "old file from its start (nothing invented); the result passes Check, a second Recover changes nothing, and the file "
+                  "can be appended to and still passes Check; reopening then re-establishes Inv (C01/C11 theorems), from which the "
+                  "agreement of Consume/Get/Stat follows. NOT proved in Coq: the multi-file step sequences of rollover, delete-by-rewrite, "
+                  "Recover's own temp files and Migrate (rename/remove/dir-sync orders) - these are decided by the crash harness only. "
+                  "Tied to /repo by the FS tap (tag verif): 40+ workloads (publish batches with rollover, all delete shapes, reopen with "
+                  "Recover, migrate), a directory image after every file-system step plus torn variants of every append; each image is "
+                  "opened with Recover on the implementation and on the model (loaded from the same bytes): full observation compared, "
+                  "acked-state oracle (published-and-not-deleted, prefix of in-flight batch, delete all-or-nothing), views agree, "
+                  "NextOffset monotone, second Recover identical, append + Check. Two genuine defects are recorded as known findings "
+                  "(F6 rebasing-delete swap window, F14 V1 first record torn in its first 8 bytes); five others were fixed.",
+             ref='6/C05', technique='Coq proof (torn-append / valid-prefix recovery on bytes) + exhaustive crash-image enumeration through an FS tap',
+             note="Directory-level step orders are explored by enumeration of the implementation's own FS events (every step, every torn "
+                  "append) on a finite set of workloads, not proved. " + COMMON_NOTE),
+ 'C06': dict(text="Partial. Proved (Coq): a clean log file cut at ANY byte at or after its header (what a power loss leaves when it keeps a "
+                  "prefix at least as long as the fsynced length) is recovered to exactly the records lying entirely below the cut: a prefix "
+                  "of what was written, containing every record below the synced length; the result is clean (Check passes, Recover "
+                  "idempotent). NOT proved: which fsync calls the implementation issues (Sync/AutoSync/Close/rollover/rewrite order) - "
+                  "that is observed through the FS tap. Tied to /repo by power-loss images synthesized from the tap: every file cut to its "
+                  "fsynced length (and to every length between that and its current length at record granularity), unsynced creates/renames "
+                  "dropped per directory-fsync; each image recovered on implementation and model; oracle: every live message below the last "
+                  "acknowledged offset (Sync return, AutoSync Publish return, Close) present, survivors a prefix of the acknowledged "
+                  "sequence, NextOffset >= acknowledged offset.",
+             ref='6/C06', technique='Coq proof (recovery of a log cut at any byte keeps everything below the cut) + power-loss image enumeration through an FS tap',
+             note="The set of fsync calls is observed on finite workloads, not proved; file-system semantics (prefix-preserving loss, "
+                  "directory fsync) are the harness's assumption. " + COMMON_NOTE),
  'C01': dict(text="Proof (Coq): for every history of API calls on one directory - Open in any mode (Check/Recover/EagerVersionMigrate, "
                   "read-write or read-only, any rollover size, either format version), Close, Publish, Delete, Consume, Get, GetByKey, "
                   "ConsumeByKey, GetByTime, NextOffset, Stat (incl. their lazy index rebuilds), removal of any index files, Migrate and "
